@@ -63,7 +63,12 @@ def dp_event(c, seed):
         dp = DiffractionPatterns(a, sampling=(float(d[0]), float(d[1])), fftshift=True,
                                  ensemble_axes_metadata=[OrdinalAxis(values=tuple(range(m))) for m in lead], metadata={"energy": 100e3})
         try:
+            a_before = a.copy()
             out = val(dp.interpolate(**kw), False)
+            again = val(dp.interpolate(**kw), False)
+            if again.shape != out.shape or not np.array_equal(np.nan_to_num(again), np.nan_to_num(out)) or not np.array_equal(a, a_before):
+                out = np.full_like(out, np.nan)          # a second call on the same object (or the object itself) changed: reported as non-finite
+                ev["second_call_differs"] = True
             ev["finite"] = bool(np.isfinite(out).all())
             tot0 = a.sum((-2, -1))
             tot1 = np.nan_to_num(out, nan=0.0).sum((-2, -1))
